@@ -52,6 +52,37 @@ def extract(repo):
             "    `ch.width().unwrap_or(2)`) -/",
             "def accStep (tabstop w : Nat) (isTab : Bool) (chw : Nat) : Nat :=",
             "\n".join("  " + l for l in e2[0].split("\n")), "",
+            ]
+    # src/selection.rs draw_item: the shift handed to the line printer, the container width
+    sel = open(os.path.join(repo, "src", "selection.rs")).read()
+    body = re.sub(r"//[^\n]*", "", R.fn_body(sel, "draw_item")[0])
+    i = body.find("let shift = if")
+    j = body.find("};", i)
+    if i < 0 or j < 0 or "reshape_string(" not in body[:i] or ".shift(shift)" not in body[j:]:
+        raise R.Unsupported("draw_item: `let shift = if .. ;` between reshape_string(..) and .shift(shift) not found")
+    expr = body[i + len("let shift ="):j + 1]
+    call = "self.calc_skip_width(&item_text)"
+    if expr.count(call) > 1:
+        raise R.Unsupported("draw_item: calc_skip_width called more than once")
+    expr = expr.replace(call, "skip")
+    e3 = R.translate(expr, {"self.no_hscroll": ("noHscroll", "Bool"), "self.keep_right": ("keepRight", "Bool")},
+                     locals_={"skip": "Nat", "match_start_char": "Nat", "match_end_char": "Nat", "full_width": "Nat",
+                              "container_width": "Nat", "shift": "Nat"})
+    if e3[1] not in ("Nat", "Lit"):
+        raise R.Unsupported("draw_item: shift has type %s" % e3[1])
+    m = re.search(r"let container_width = ([^;]*);", body)
+    if not m:
+        raise R.Unsupported("draw_item: container_width not found")
+    e4 = R.translate(m.group(1), {}, locals_={"screen_width": "Nat"})
+    m = re.search(r"if screen_width < (\d+) \{\s*return Err\(", body)
+    if not m:
+        raise R.Unsupported("draw_item: the `screen width is too small` guard not found")
+    out += ["/-- `draw_item`: the `shift` handed to the line printer (`skip` = `self.calc_skip_width(&item_text)`, `shift` / `full_width` =",
+            "    what `reshape_string` returned) -/",
+            "def drawShift (noHscroll keepRight : Bool) (skip match_start_char match_end_char full_width container_width shift : Nat) : Nat :=",
+            "\n".join("  " + l for l in e3[0].split("\n")), "",
+            "/-- `let container_width = ..` -/", "def containerWidth (screen_width : Nat) : Nat :=", "  " + e4[0], "",
+            "/-- `if screen_width < k { return Err(..) }` -/", "def minScreenWidth : Nat := %s" % m.group(1), "",
             "end SkimModel.Generated.ReshapeFns", ""]
     return "\n".join(out)
 
